@@ -6,39 +6,22 @@
    the RefSem / NetModel development (C01): its hypothesis is [sched_safe p = true].
    The behaviour of accepted programs at run time is exercised by the correspondence slice
    (accepted members of the well-formed family, of every single-fault mutant and of the
-   near-valid variants are driven to the end). *)
+   near-valid variants are driven to the end).
+
+   History: recursion (D8), the call inside a parallel loop (D9) and loop limits (D10) were not
+   checked; they were repaired in /repo and the former C09_accepted_is_sched_safe_refuted is now
+   the theorem C09_accepted_is_sched_safe. *)
 From PFDL Require Import Base Syntax.
 From PFDL.Check Require Import CheckModel CheckProofsC10 CheckProofsC09 CheckRefuted Typing Guards Witnesses.
 
-(* Full statement: acceptance implies everything the scheduler needs (sched_safe).  False of
-   the faithful model: recursion (D8), the call inside a parallel loop (D9), loop limits (D10)
-   and the type of guards (D12b) are not checked. *)
-Theorem C09_accepted_is_sched_safe_refuted : ~ C09_accepted_is_sched_safe.
-Proof. exact not_accepted_is_sched_safe. Qed.
-Print Assumptions C09_accepted_is_sched_safe_refuted.
-
-Theorem C09_refuted_witnesses :
-  (validate w_D8_self_recursion = Ok [] /\ sched_safe w_D8_self_recursion = false)
-  /\ (validate w_D9_unknown_task_in_parallel_loop = Ok [] /\ sched_safe w_D9_unknown_task_in_parallel_loop = false)
-  /\ (validate w_D10_undeclared_limit = Ok [] /\ sched_safe w_D10_undeclared_limit = false)
-  /\ (validate w_D12b_string_as_condition = Ok [] /\ sched_safe w_D12b_string_as_condition = false).
-Proof. exact accepted_not_sched_safe. Qed.
-Print Assumptions C09_refuted_witnesses.
-
-(* What acceptance does guarantee, for every program: productionTask exists; every task call
-   the validator looks at (any nesting of loops and conditions, Parallel blocks) names a
-   defined task with the right number of inputs and outputs; parallel loops consist of one
-   task call; variable parameters are declared. *)
-Theorem C09_accepted_is_sched_safe_checked : forall p, validate p = Ok [] -> sched_safe_checked p = true.
-Proof. exact accepted_sched_safe_checked. Qed.
-Print Assumptions C09_accepted_is_sched_safe_checked.
-
-(* Under the executable guard "none of the four unchecked shapes occurs" acceptance implies
-   sched_safe. *)
-Theorem C09_accepted_is_sched_safe_partial : forall p,
-  sched_safe_unchecked p = true -> validate p = Ok [] -> sched_safe p = true.
-Proof. exact accepted_sched_safe_partial. Qed.
-Print Assumptions C09_accepted_is_sched_safe_partial.
+(* Acceptance implies, for every program: productionTask exists; every task call — at any
+   nesting, in Parallel blocks and in parallel loops — names a defined task with the right
+   number of inputs and outputs; parallel loops consist of one task call; variable parameters
+   are declared; no task call leads back to the calling task (the unfolding is finite); loop
+   limits resolve to a number. *)
+Theorem C09_accepted_is_sched_safe : forall p, validate p = Ok [] -> sched_safe p = true.
+Proof. exact accepted_sched_safe. Qed.
+Print Assumptions C09_accepted_is_sched_safe.
 
 (* the entry point of the unfolding exists *)
 Theorem C09_accepted_has_production_task : forall p,
@@ -46,7 +29,16 @@ Theorem C09_accepted_has_production_task : forall p,
 Proof. exact accepted_has_production_task. Qed.
 Print Assumptions C09_accepted_has_production_task.
 
-Theorem C09_guard_inhabited : validate w_good_small = Ok [] /\ sched_safe w_good_small = true
-                              /\ sched_safe_unchecked w_good_small = true.
-Proof. exact sched_safe_inhabited. Qed.
+(* What acceptance still does not guarantee (known finding D12b): that guards are boolean
+   expressions.  A string literal as condition is accepted and raises TypeError at run time. *)
+Theorem C09_accepted_guards_typed_refuted : ~ C09_accepted_guards_typed.
+Proof. exact not_accepted_guards_typed. Qed.
+Print Assumptions C09_accepted_guards_typed_refuted.
+
+Theorem C09_guard_inhabited :
+  wf_dec w_good_small = true /\ from_grammar w_good_small = true /\ validate w_good_small = Ok []
+  /\ c11_guard w_good_small = true /\ sh_bad_guard w_good_small = false
+  /\ sh_string_eq w_good_small = false /\ sh_array_element w_good_small = false
+  /\ sched_safe w_good_small = true /\ guards_typed w_good_small = true.
+Proof. exact good_small_in_all_guards. Qed.
 Print Assumptions C09_guard_inhabited.
